@@ -349,3 +349,86 @@ def _register_ucl():
 
 
 _register_ucl()
+
+
+class KromeCtx(DecCtx):
+    """KROME lines: the first character of a line that starts with its index is a digit or a sign (never the comment mark)"""
+
+    def str_index(self, interp, s, idx):
+        if isinstance(idx, int) and idx == 0 and isinstance(s, SStr) and s.segs:
+            f = s.segs[0]
+            if isinstance(f, Lit) and f.text:
+                return f.text[0]
+            if isinstance(f, Hole) and f.kind == "num":
+                return SStr([Hole("word", val=z3.Const("first_char_of_index", StrId), minlen=1, extra={"len": z3.IntVal(1), "notin": ("#", "@", "/"), "nosep": True})])
+        return super().str_index(interp, s, idx)
+
+
+KROME_WINDOWS = [("NONE", None), ("N", None), ("10", 10.0), ("1.d1", 10.0), (".LE.1d2", 100.0), (">1.5d2", 150.0), (".GE..5d3", 500.0), ("<3d3", 3000.0),
+                 (".LT.4.1d4", 41000.0), (".GT.2.5e1", 25.0), (".25d2", 25.0), ("1e4", 10000.0), (".5d3", 500.0), ("1000.", 1000.0)]
+
+
+def entry_krome(it):
+    """KROME line in the default column layout idx,R,R,R,P,P,P,P,Tmin,Tmax,rate: symbolic index and species names (absent slots empty),
+    the temperature cells in every spelling of a stated list (concrete text: operators, d-exponents, NONE), the rate text opaque-free
+    (a fixed expression).  The index, the reactants and products in order, the window (0 / default when the cell says no limit) and
+    the rate text come back."""
+    from naunet.reactions.kromereaction import KROMEReaction
+    from naunet.species import Species
+    Species.reset()
+    occ = [(a, b) for a in range(1, 4) for b in range(0, 5)]
+    nr, np_ = occ[it.choose(len(occ), "occupancy")]
+    wl = KROME_WINDOWS[it.choose(len(KROME_WINDOWS), "tmin-spelling")]
+    wu = KROME_WINDOWS[(KROME_WINDOWS.index(wl) * 5 + 3) % len(KROME_WINDOWS)]
+    idx = z3.Int("idx")
+    it.assume(idx >= 0)
+    names = list(range(nr + np_))
+    for k in names:
+        it.assume(name_len(k) >= 1)
+    segs = [num(idx, "int", "l0"), Lit(",")]
+    for k in range(3):
+        segs += ([word(names[k], 0)] if k < nr else []) + [Lit(",")]
+    for k in range(4):
+        segs += ([word(names[nr + k], 0)] if k < np_ else []) + [Lit(",")]
+    rate = "1.0d-10*(Tgas/3d2)**(0.5)*dexp(-1.5d2/Tgas)"
+    segs += [Lit(f"{wl[0]},{wu[0]},{rate}")]
+    obj = KROMEReaction.__new__(KROMEReaction)
+    from naunet.component import Component
+    Component.__init__(obj)
+    obj.reactants, obj.products = [], []
+    obj.temp_min, obj.temp_max, obj.idxfromfile, obj.rate_string = -1.0, -1.0, -1, ""
+    obj.kromeformat = "idx,r,r,r,p,p,p,p,tmin,tmax,rate"
+    P = ("C07", "C06")
+    tag = f"krome/{nr}r{np_}p/{wl[0]}/{wu[0]}"
+    try:
+        it.call_function(KROMEReaction._parse_string, [obj, SStr(segs)], {})
+    except PyRaise as e:
+        it.fail(f"krome/{nr}r{np_}p/no-exception", P, f"{tag}: {type(e.exc).__name__}: {e.exc}")
+        return
+
+    def ids(lst):
+        return [s.id if isinstance(s, SObj) else None for s in lst]
+    t2 = f"krome/{nr}r{np_}p"
+    it.prove(z3.BoolVal(len(obj.reactants) == nr and len(obj.products) == np_), f"{t2}/species-counts", P, detail=f"{obj.reactants!r} -> {obj.products!r}")
+    if len(obj.reactants) == nr and len(obj.products) == np_:
+        it.prove(z3.And(*[x == y for x, y in zip(ids(obj.reactants) + ids(obj.products), names)]), f"{t2}/species-in-order", P)
+    from pyvc.ops import term_of
+    it.prove(term_of(obj.idxfromfile) == idx, f"{t2}/index", P)
+    for nm_, got, (txt, val) in (("temp_min", obj.temp_min, wl), ("temp_max", obj.temp_max, wu)):
+        want = -1.0 if val is None else val
+        ok = isinstance(got, (int, float)) and float(got) == want
+        if ok:
+            it.prove(z3.BoolVal(True), f"krome/window/{nm_}-spelled-{txt}", P)
+        else:
+            it.fail(f"krome/window/{nm_}-spelled-{txt}", P, f"cell {txt!r} decoded as {got!r}, it means {want}")
+    it.prove(z3.BoolVal(obj.rate_string == rate.replace("dexp", "exp")), f"{t2}/rate-text", P, detail=f"{obj.rate_string!r}")
+
+
+def _register_krome():
+    from pyvc.units import Unit, register
+    from naunet.reactions.kromereaction import KROMEReaction
+    from naunet.component import Component
+    register(Unit("decode_krome", __name__, lambda props=(): KromeCtx(props), entry_krome, functions=[KROMEReaction._parse_string, Component._create_species], props=("C07", "C06")))
+
+
+_register_krome()
